@@ -38,8 +38,9 @@ type Case struct {
 	Calls   []Call `json:"calls"`
 	Rawsink string `json:"rawsink"`
 	// signature fields of known findings, computed by the generator specification and echoed unchanged
-	EmptyTrailer string `json:"emptytrailer"`
-	ConnConflict string `json:"connconflict"`
+	EmptyTrailer    string `json:"emptytrailer"`
+	ConnConflict    string `json:"connconflict"`
+	FramingConflict string `json:"framingconflict"`
 }
 
 // memWriter is a network.Writer collecting everything written.
@@ -289,7 +290,8 @@ func runCase(tr *vtrace.Writer, c *Case) {
 		calls[i] = vtrace.Rec{"e": cl.E, "a": a}
 	}
 	tr.Emit("Case", vtrace.Rec{"id": c.ID, "tgt": c.Tgt, "body": c.Body, "calls": calls, "rawsink": c.Rawsink,
-		"emptytrailer": c.EmptyTrailer, "connconflict": c.ConnConflict})
+		"emptytrailer": c.EmptyTrailer, "connconflict": c.ConnConflict,
+		"framingconflict": c.FramingConflict})
 	defer tr.Emit("End", nil)
 	defer func() {
 		if r := recover(); r != nil {
